@@ -87,7 +87,9 @@ type vC11STransport struct {
 	start time.Time
 }
 
-func (t *vC11STransport) LocalAddr() net.Addr { return &net.TCPAddr{IP: net.IPv4(127, 0, 0, 1), Port: 443} }
+func (t *vC11STransport) LocalAddr() net.Addr {
+	return &net.TCPAddr{IP: net.IPv4(127, 0, 0, 1), Port: 443}
+}
 func (t *vC11STransport) RemoteAddr() net.Addr {
 	return &net.TCPAddr{IP: net.IPv4(192, 0, 2, 10), Port: 40000}
 }
@@ -372,7 +374,15 @@ func vC11SGen(r *rand.Rand) *vC11SScenario {
 	return sc
 }
 
-func TestVerifC11Server(t *testing.T) {
+func TestVerifC11Server(t *testing.T) { vC11ServerRun(t, false) }
+
+// TestVerifC11Shutdown: the same scenarios with the listener shut down somewhere in the middle,
+// through the REAL udpListener.Shutdown (read deadline, udpEngine.stopAndDrain, socket close)
+// with a drain timeout of 100-2500 ms against a 2 s query timeout. The driver plays the
+// reader, so "admission stopped" is the driver no longer dispatching ring datagrams.
+func TestVerifC11Shutdown(t *testing.T) { vC11ServerRun(t, true) }
+
+func vC11ServerRun(t *testing.T, withShutdown bool) {
 	out := os.Getenv("VERIF_OUT")
 	if out == "" {
 		t.Skip("VERIF_OUT not set")
@@ -385,8 +395,41 @@ func TestVerifC11Server(t *testing.T) {
 	seed := int64(vC11SEnvInt("VERIF_SEED", 1))
 	n := vC11SEnvInt("VERIF_N", 100)
 	r := rand.New(rand.NewSource(seed*32452843 + 17))
+	r2 := rand.New(rand.NewSource(seed*15485863 + 3))
 	for c := 0; c < n; c++ {
 		sc := vC11SGen(r)
+		stopAt, drain := -1, 0
+		if withShutdown {
+			// instants on which anything can end: no tie with the stop or the socket close
+			busy := map[int]bool{}
+			last := 0
+			for _, ev := range sc.events {
+				busy[ev.t] = true
+				if ev.t > last && ev.t < 50000 {
+					last = ev.t
+				}
+			}
+			first := sc.events[0].t
+			for {
+				stopAt = first + r2.Intn(last-first+200)
+				drain = 100 + r2.Intn(2400)
+				if !busy[stopAt] && !busy[stopAt+drain] && stopAt > 0 {
+					break
+				}
+			}
+			sc.events = append(sc.events, vC11SEvent{stopAt, 5, 0}, vC11SEvent{stopAt + drain, 4, 0})
+			sort.SliceStable(sc.events, func(a, b int) bool {
+				if sc.events[a].t != sc.events[b].t {
+					return sc.events[a].t < sc.events[b].t
+				}
+				return sc.events[a].kind == 4 && sc.events[b].kind != 4
+			})
+			sc.faults = map[int][]int{} // kernel send faults are the server driver's business
+			sc.mode = "shutdown-" + strings.TrimPrefix(sc.mode, "server-")
+		}
+		var drainErr error
+		shutdownReturned := -1
+		stopped := false
 		var coqEvents []string
 		var downCalls atomic.Int64
 		goFail := ""
@@ -425,6 +468,8 @@ func TestVerifC11Server(t *testing.T) {
 			readerBurst := udpTXBurst{slot: e.workers}
 			start := time.Now()
 			bubbleStart = start
+			lst := &udpListener{addr: "verif", engine: e, pcs: []*net.UDPConn{srv}, done: make(chan struct{})}
+			var lstG sync.WaitGroup
 			for _, rq := range sc.reqs {
 				rq.relCh = make(chan struct{})
 				rq.endAt.Store(int64(rq.arrive)) // never served: "returned" on arrival
@@ -489,6 +534,9 @@ func TestVerifC11Server(t *testing.T) {
 					}()
 					return
 				}
+				if stopped {
+					return // the readers are gone: the datagram is never read
+				}
 				raw, _ := msg.Pack()
 				j := e.take(0)
 				if j == nil {
@@ -532,6 +580,16 @@ func TestVerifC11Server(t *testing.T) {
 					rq := sc.reqs[ev.idx]
 					rq.relOnce.Do(func() { close(rq.relCh) })
 					coqEvents = append(coqEvents, fmt.Sprintf("ERelease %d", ev.idx))
+				case 5:
+					stopped = true
+					lst.timeout = time.Duration(drain) * time.Millisecond
+					lstG.Add(1)
+					go func() {
+						defer lstG.Done()
+						drainErr = lst.Shutdown(context.Background())
+						shutdownReturned = int(time.Since(start) / time.Millisecond)
+					}()
+					coqEvents = append(coqEvents, fmt.Sprintf("EShutdown %d", drain))
 				}
 				synctest.Wait()
 				poll()
@@ -562,7 +620,11 @@ func TestVerifC11Server(t *testing.T) {
 			}
 			leasedEnd = e.leased.Load()
 			inflightEnd = e.inFlight.Load()
-			close(e.ready)
+			if stopped {
+				lstG.Wait() // stopAndDrain closed the ready queue
+			} else {
+				close(e.ready)
+			}
 			e.workerG.Wait()
 			e.overflowG.Wait()
 			poll()
@@ -600,7 +662,8 @@ func TestVerifC11Server(t *testing.T) {
 			if rq.writes > 1 && goFail == "" {
 				goFail = fmt.Sprintf("query %d: %d replies", i, rq.writes)
 			}
-			if rq.writes == 0 && !cancelled && rq.entered.Load() && goFail == "" {
+			lostToClose := withShutdown && drainErr != nil && rq.path != 0 && int(rq.endAt.Load()) > stopAt+drain
+			if rq.writes == 0 && !cancelled && rq.entered.Load() && !lostToClose && goFail == "" {
 				goFail = fmt.Sprintf("query %d entered the chain, the client never went away, and no reply arrived", i)
 			}
 			if !rq.called.Load() && rq.writes == 1 {
@@ -610,15 +673,29 @@ func TestVerifC11Server(t *testing.T) {
 		if (leasedEnd != 0 || inflightEnd != 0) && goFail == "" {
 			goFail = fmt.Sprintf("after the drain %d slabs are still leased and %d jobs in flight", leasedEnd, inflightEnd)
 		}
+		coqCase := fmt.Sprintf("CaseServer %d %d %d [%s] [%s] [%s] [%s] [%s] %d %d %d", sc.workers, sc.qcap, sc.slabCap,
+			strings.Join(reqCoq, "; "), strings.Join(paths, "; "), strings.Join(coqEvents, "; "), strings.Join(obsCoq, "; "), strings.Join(entered, "; "),
+			downCalls.Load(), leasedEnd, inflightEnd)
+		if withShutdown {
+			if goFail == "" && (shutdownReturned < 0 || shutdownReturned > stopAt+drain) {
+				goFail = fmt.Sprintf("Shutdown called at %d ms with a %d ms drain timeout returned at %d ms", stopAt, drain, shutdownReturned)
+			}
+			devs := make([]string, len(coqEvents))
+			for i, ev := range coqEvents {
+				devs[i] = "D" + ev[1:]
+			}
+			coqCase = fmt.Sprintf("CaseShutdown %d %d %d [%s] [%s] [%s] [%s] [%s] %d %d %d %v %d %d", sc.workers, sc.qcap, sc.slabCap,
+				strings.Join(reqCoq, "; "), strings.Join(paths, "; "), strings.Join(devs, "; "), strings.Join(obsCoq, "; "), strings.Join(entered, "; "),
+				downCalls.Load(), leasedEnd, inflightEnd, drainErr != nil, stopAt, shutdownReturned)
+		}
 		b, _ := json.Marshal(map[string]any{
-			"k": sc.mode,
-			"coq": fmt.Sprintf("CaseServer %d %d %d [%s] [%s] [%s] [%s] [%s] %d %d %d", sc.workers, sc.qcap, sc.slabCap,
-				strings.Join(reqCoq, "; "), strings.Join(paths, "; "), strings.Join(coqEvents, "; "), strings.Join(obsCoq, "; "), strings.Join(entered, "; "),
-				downCalls.Load(), leasedEnd, inflightEnd),
+			"k":          sc.mode,
+			"coq":        coqCase,
 			"nontrivial": nontrivial && len(sc.reqs) > 1,
 			"go_fail":    goFail,
 			"desc": map[string]any{"mode": sc.mode, "workers": sc.workers, "queue": sc.qcap, "slab_cap": sc.slabCap, "query_timeout_ms": sc.qt,
-				"requests": desc, "timeline": coqEvents, "resolver_standin_calls": downCalls.Load(), "leased_after_drain": leasedEnd, "inflight_after_drain": inflightEnd},
+				"requests": desc, "timeline": coqEvents, "resolver_standin_calls": downCalls.Load(), "leased_after_drain": leasedEnd, "inflight_after_drain": inflightEnd,
+				"shutdown_at": stopAt, "drain_timeout_ms": drain, "shutdown_returned_at": shutdownReturned, "drain_error": fmt.Sprint(drainErr)},
 		})
 		f.Write(append(b, '\n'))
 	}
